@@ -309,7 +309,8 @@ def with_zero_entry(spec_item, mode):
     else:
         tgt = n
         n2 = n + 1
-        T2 = list(T) + [(('a', ((n, F(1)),), F(0)),)]
+        # 'outside_pit': the never-entered extra state is a costly closed loop (its value is -inf when undiscounted)
+        T2 = list(T) + [(('a', ((n, F(1)),), F(-1) if mode == 'outside_pit' else F(0)),)]
     new_dist = dist + ((tgt, F(0)),)
     new_rew = (tuple(rew for _ in dist) if not isinstance(rew, tuple) else rew) + (F(-5),)
     T2[s0] = ((a, new_dist, new_rew),) + tuple(T[s0][1:])
